@@ -1064,3 +1064,5 @@ func (m *MemStore) CommitInfo(id githash.Hash) (tree githash.Hash, parents []git
 }
 
 var _ gitstore.Storer = (*MemStore)(nil)
+
+type treeEntry = gitstore.TreeEntry
